@@ -52,6 +52,7 @@ type VerifLogEntry struct {
 	Evs [][4]string `json:"evs,omitempty"` // rev, put|del, key, val
 	K   string      `json:"k,omitempty"`
 	V   string      `json:"v,omitempty"`
+	Ep  int         `json:"ep,omitempty"`
 }
 
 // VerifEtcd is the fake.
@@ -617,19 +618,46 @@ func (e *VerifEtcd) VerifBind(hosts ...string) {
 type VerifSpy struct {
 	E   *VerifEtcd
 	Tag string
-	// Hook, when set, runs once inside the first OnAdd (the executor registers keys while the
-	// first listener of a key is being handed the loaded values).
-	Hook func()
+	Ep  int // generation of the watcher this spy is the first listener of (numbered by the executor)
+	// Hook, when set, runs once, inside the (HookAt+1)-th call the spy receives after it was
+	// set (the executor registers keys / closes and re-creates subscribers while a listener of
+	// the watcher is being called).
+	Hook   func()
+	HookAt int
+	calls  int
+}
+
+func (s *VerifSpy) called() {
+	if h := s.Hook; h != nil {
+		if s.calls == s.HookAt {
+			s.Hook = nil
+			s.calls = 0
+			h()
+			return
+		}
+		s.calls++
+	}
+}
+
+// Arm sets the hook.
+func (s *VerifSpy) Arm(at int, h func()) {
+	s.calls, s.HookAt, s.Hook = 0, at, h
 }
 
 func (s *VerifSpy) OnAdd(kv KV) {
-	s.E.logf(VerifLogEntry{W: s.Tag, T: "add", K: kv.Key, V: kv.Val})
-	if h := s.Hook; h != nil {
-		s.Hook = nil
-		h()
-	}
+	s.E.logf(VerifLogEntry{W: s.Tag, T: "add", K: kv.Key, V: kv.Val, Ep: s.Ep})
+	s.called()
 }
-func (s *VerifSpy) OnDelete(kv KV) { s.E.logf(VerifLogEntry{W: s.Tag, T: "del", K: kv.Key, V: kv.Val}) }
+
+func (s *VerifSpy) OnDelete(kv KV) {
+	s.E.logf(VerifLogEntry{W: s.Tag, T: "del", K: kv.Key, V: kv.Val, Ep: s.Ep})
+	s.called()
+}
+
+// Mark writes a marker of the executor into the log (a new generation of a watcher begins).
+func (e *VerifEtcd) Mark(tag, what string, n int) {
+	e.logf(VerifLogEntry{W: tag, T: what, Ep: n})
+}
 
 // VerifTag names the watcher of (key, exactMatch) the way the fake's log does.
 func VerifTag(key string, exact bool) string {
